@@ -134,9 +134,11 @@ claim("C02",
 claim("C15",
       "Coq theorems on the call structure of the generated functions (a function calls the functions of its components unconditionally): a well-founded structure gives termination for every random stream; a type that reaches itself never returns (the open finding, as a theorem). "
       "Tied to /repo by compiling the real generated functions with the source package and calling them under several seeds, one process per type with a time limit: the model's termination prediction per type must equal what happened. "
-      "Well-formedness (enum components among the exported constants, non-nil member unions, populated containers, skipped fields zero), variation and the JSON round trip are checked by reflection on every returned value.",
-      "Partial: well-formedness and variation are observed on the real functions, not proved; the proof covers termination (model of the call structure, read from the templates). Trusted: the reflection driver.",
-      "Coq proof (termination iff acyclic call structure) + per-type termination correspondence + reflection oracle on real values", "DESIGN.md §5 C15")
+      "Values: Sem/RandSem.v models rand<T>() as a function of the random numbers drawn (gen) and states well-formedness (wf: enum components among the exported constants, union components holding a member, populated arrays / slices / maps, skipped fields zero); "
+      "C15_generated_values_are_well_formed proves wf of whatever gen returns, for every sequence of draws. Tie: a shim package records every call the real generated code makes to math/rand (function, argument, result); gen replayed on that record must rebuild the very value the real function returned, and wf is evaluated in Coq on each real value. "
+      "Variation and the JSON round trip are checked by reflection in the test binary.",
+      "Partial: variation is observed, not proved; float64 values are not computed by the model (the product of two draws: any number is accepted there). Trusted: the reflection driver and its value dump, the recording shim (harness/testbin/zzrand.go.txt, same results as math/rand), the constants of the templates copied into the model (validated by the replay on every call).",
+      "Coq proof (termination iff acyclic call structure; well-formedness of every value of the generator model) + per-call replay of the model on recorded random draws + reflection oracle on real values", "DESIGN.md §5 C15, §8.1")
 
 claim("C03",
       "Coq: the Go wire shapes (Sem/GoJson.v, validated against the real encoder) and the TypeScript environment with structural inhabitation (Sem/TsSem.v: exact keys, null only where allowed, tuple lengths, enum literal sets, Kind/Data unions); "
